@@ -211,6 +211,11 @@ theorem logIdx0_fire (v : Variant) {s s' : S} {l : Label} (hl : LogIdx0 s) (h : 
     · cases h
   | cancel => simp only [fire, Option.some.injEq] at h; subst h; exact hl
   | fatal => simp only [fire, Option.some.injEq] at h; subst h; exact hl
+  | giveUp =>
+    simp only [fire] at h
+    split at h
+    · simp only [Option.some.injEq] at h; subst h; exact hl
+    · cases h
   | post e => cases e <;> simp only [fire, postEv, Option.some.injEq, reduceCtorEq] at h <;> first | (subst h; exact hl) | cases h
   | begin =>
     simp only [fire] at h
